@@ -245,7 +245,7 @@ pub fn miri_targeted_stage(ctx: &Ctx, build_dir: &Path) -> (u64, Option<Value>, 
     if ctx.id != "C08" {
         return (0, None, None);
     }
-    let count: u64 = if ctx.tier.name() == "quick" { 24 } else { 400 };
+    let count: u64 = if ctx.tier.name() == "quick" { 48 } else { 600 };
     let file = build_dir.join(format!("c08t-{}.txt", ctx.seed));
     let me = std::env::current_exe().expect("current_exe");
     let st = Command::new(&me).args(["c08t-inputs", &ctx.seed.to_string(), &count.to_string(), file.to_str().unwrap()]).status();
@@ -254,20 +254,66 @@ pub fn miri_targeted_stage(ctx: &Ctx, build_dir: &Path) -> (u64, Option<Value>, 
     }
     let harness = ctx.verif_dir.join("harness");
     let start = Instant::now();
-    let out = Command::new("cargo")
-        .current_dir(&harness)
-        .args(["+nightly", "miri", "run", "-q", "-p", "mlv", "--bin", "mlv-miri", "--", "C08T", file.to_str().unwrap()])
-        .env("MIRIFLAGS", "-Zmiri-tree-borrows -Zmiri-disable-isolation -Zmiri-no-extra-rounding-error")
-        .env("CARGO_TARGET_DIR", build_dir.join("miri"))
-        .env("CARGO_NET_OFFLINE", "true")
-        .stdin(Stdio::null())
-        .output();
-    let out = match out {
-        Ok(o) => o,
-        Err(e) => return (0, None, Some(format!("cannot run Miri: {e}"))),
+    // split the inputs over up to 12 concurrent interpreters
+    let lines: Vec<String> = std::fs::read_to_string(&file).unwrap_or_default().lines().map(|s| s.to_string()).collect();
+    let parts = ((lines.len() + 5) / 6).clamp(1, 12);
+    let mut children = Vec::new();
+    for p in 0..parts {
+        let cfile = build_dir.join(format!("c08t-{}-part{}.txt", ctx.seed, p));
+        let text: String = lines.iter().enumerate().filter(|(i, _)| i % parts == p).map(|(_, l)| format!("{l}\n")).collect();
+        if std::fs::write(&cfile, text).is_err() {
+            return (0, None, Some("cannot write a targeted Miri input chunk".into()));
+        }
+        let c = Command::new("cargo")
+            .current_dir(&harness)
+            .args(["+nightly", "miri", "run", "-q", "-p", "mlv", "--bin", "mlv-miri", "--", "C08T", cfile.to_str().unwrap()])
+            .env("MIRIFLAGS", "-Zmiri-tree-borrows -Zmiri-disable-isolation -Zmiri-no-extra-rounding-error")
+            .env("CARGO_TARGET_DIR", build_dir.join("miri"))
+            .env("CARGO_NET_OFFLINE", "true")
+            .stdin(Stdio::null())
+            .stdout(Stdio::piped())
+            .stderr(Stdio::piped())
+            .spawn();
+        match c {
+            Ok(c) => children.push((cfile, c)),
+            Err(e) => return (0, None, Some(format!("cannot run Miri: {e}"))),
+        }
+    }
+    // the first failing chunk (if any) is the one reported; `file` is re-pointed at it so that the case index
+    // printed by the interpreter selects the right line
+    let mut all_ok = true;
+    let mut failing: Option<(PathBuf, String, String)> = None;
+    let mut ok_out = String::new();
+    for (cfile, c) in children {
+        let out = match c.wait_with_output() {
+            Ok(o) => o,
+            Err(e) => return (0, None, Some(format!("cannot run Miri: {e}"))),
+        };
+        let (so, se) = (String::from_utf8_lossy(&out.stdout).to_string(), String::from_utf8_lossy(&out.stderr).to_string());
+        if out.status.success() && so.contains("MIRI-OK C08T") {
+            ok_out.push_str(&so);
+            let _ = std::fs::remove_file(&cfile);
+        } else {
+            all_ok = false;
+            if failing.is_none() {
+                failing = Some((cfile, so, se));
+            }
+        }
+    }
+    let (file, stdout, stderr) = match failing {
+        Some((f, so, se)) => (f, so, se),
+        None => (file, ok_out, String::new()),
     };
-    let stdout = String::from_utf8_lossy(&out.stdout).to_string();
-    let stderr = String::from_utf8_lossy(&out.stderr).to_string();
+    struct St(bool);
+    impl St {
+        fn success(&self) -> bool {
+            self.0
+        }
+    }
+    struct Out {
+        status: St,
+    }
+    let out = Out { status: St(all_ok) };
     let last = stdout.lines().filter(|l| l.starts_with("MIRI-CASE")).last().unwrap_or("").to_string();
     let report = json!({"engine": "Miri (tree borrows) on targeted valid inputs, stack and heap configurations", "inputs": count,
                         "families": ["G-N x3", "G-P", "G-M", "G-G f32 at MAX_DIGITS", "G-G f64 at MAX_DIGITS", "big-bigint"],
